@@ -86,7 +86,11 @@ def run_api(ck, programs, tag, in_scope, per_program_timeout=60, extra_classify=
         prop = REASON_PROP.get(why, "?")
         if why.startswith("abnormal termination"):
             prop = "C10"
-        cls = classify(prog, evj) + (extra_classify(prog, evj) if extra_classify else [])
+        cls = classify(prog, evj)
+        if extra_classify:
+            # the events of this execution up to the rejected one (for classes that depend on what the files hold)
+            st0 = max(i for i in range(line) if '"e":"Reset"' in lines[i])
+            cls += extra_classify(prog, evj, lines[st0:line])
         descr = {"where": "implementation", "execution": ex, "reason": why, "event_kind": evj.get("e"), "cls": cls,
                  "feat": prog.get("feat", []), "event": lines[line - 1][:500]}
         if prop not in in_scope and not why.startswith("abnormal termination"):
